@@ -39,3 +39,39 @@ Definition shipped_temp (base : ident) (k : nat) : ident := base ++ digits k.
 Example shipped_collision : user_ok [118;97;108;117;101;50] = true
   /\ shipped_temp [118;97;108;117;101] 2 = [118;97;108;117;101;50].
 Proof. vm_compute. auto. Qed.
+
+(* ---- module level ----
+   A user rule or class named u gives the module three names: u itself,
+   _parse_u (its entry point) and _try_u (its parse function).  The generator's
+   own module-level functions are _function_<id> (helpers split off by
+   functionalize), _raise_error<id> and _matcher<id>. *)
+Definition s_parse := [95;112;97;114;115;101;95].          (* "_parse_" *)
+Definition s_try := [95;116;114;121;95].                    (* "_try_" *)
+Definition s_function := [95;102;117;110;99;116;105;111;110;95].   (* "_function_" *)
+Definition s_raise_error := [95;114;97;105;115;101;95;101;114;114;111;114].  (* "_raise_error" *)
+Definition s_matcher := [95;109;97;116;99;104;101;114].     (* "_matcher" *)
+Definition derived (u : ident) : list ident := [u; s_parse ++ u; s_try ++ u].
+Definition helper (k : nat) : ident := s_function ++ digits k.
+Definition error_fn (k : nat) : ident := s_raise_error ++ digits k.
+Definition matcher (k : nat) : ident := s_matcher ++ digits k.
+Definition generated (k : nat) : list ident := [helper k; error_fn k; matcher k].
+
+Theorem derived_never_generated : forall u k j, user_ok u = true -> forall a b, In a (derived u) -> In b (generated k ++ generated j) -> a <> b.
+Proof.
+  intros u k j Hu a b Ha Hb E. subst b.
+  destruct u as [|c u]; [discriminate|]. cbn in Hu.
+  unfold derived in Ha. cbn [In] in Ha.
+  assert (Hg : forall n, In a (generated n) -> False).
+  { intros n Hn. unfold generated, helper, error_fn, matcher in Hn. cbn [In] in Hn.
+    destruct Ha as [<- | [<- | [<- | []]]]; destruct Hn as [Hn | [Hn | [Hn | []]]]; cbn in Hn;
+      try (injection Hn as Hc _; subst c; discriminate);
+      try discriminate. }
+  apply in_app_or in Hb. destruct Hb as [Hb | Hb]; eapply Hg; eauto.
+Qed.
+
+(* as shipped the helpers were called _parse_function_<id>: the entry point of a rule named function_5 *)
+Definition shipped_helper (k : nat) : ident := s_parse ++ [102;117;110;99;116;105;111;110;95] ++ digits k.
+Example shipped_helper_collision :
+  user_ok ([102;117;110;99;116;105;111;110;95] ++ digits 5) = true /\
+  In (shipped_helper 5) (derived ([102;117;110;99;116;105;111;110;95] ++ digits 5)).
+Proof. vm_compute. auto. Qed.
